@@ -11,7 +11,7 @@ from vlib.props.c01 import parents, ref_parent, compare_node, versions
 from vlib.props.c02 import compare_pub
 
 PROPERTY_ID = "C18"
-OPTIMIZED = ['ckd', 'master', 'bip85', 'sequence']   # clauses run a second time under `python -O` (assert statements stripped)
+OPTIMIZED = ['ckd', 'master', 'bip85', 'sequence', 'bip85-path', 'bulk']   # clauses run a second time under `python -O` (assert statements stripped)
 RULE = ("the PRF (bip32.hmac_sha512 / bip85.hmac_sha512) is replaced for one case by a scripted chosen-output "
         "function; outputs sit at the corners BIP32 declares invalid (IL >= n, k_i = 0, K_i = infinity) and at "
         "their valid neighbours as controls; the oracle is BIP32's validity predicate evaluated by the reference")
@@ -224,6 +224,159 @@ def check_bip85(case, ctx):
         raise Violation("C18/bip85/hmac-arguments", "%s: entropy PRF calls %r" % (what, [c[0] for c in stub.calls]))
 
 
+# ----------------------------------------------------------------------------------- invalid child inside a BIP85 request
+B85_PARAMS = {"mnemonic": [12, 15, 18, 21, 24], "wif": [None], "xprv": [None], "hex": [16, 32, 64], "pwd": [20, 21, 86]}
+
+
+def gen_bip85_path(tier):
+    return st.fixed_dictionaries({
+        "k": S.scalars(), "c": S.chain_codes(), "index": st.one_of(st.sampled_from([0, 1, 7, H - 1]), st.integers(0, H - 1)),
+        "app": st.sampled_from(sorted(B85_PARAMS)), "p": st.integers(0, 10), "at": st.integers(0, 4),
+        "kind": st.sampled_from(["n", "max", "ge-n-uniform", "n-k", "n-k", "uniform"]), "u": st.integers(0, BIG - 1),
+    })
+
+
+def b85_path(app, param, index):
+    return {"mnemonic": lambda: R85.path_mnemonic(param, index), "wif": lambda: R85.path_wif(index),
+            "xprv": lambda: R85.path_xprv(index), "hex": lambda: R85.path_hex(param, index),
+            "pwd": lambda: R85.path_pwd(param, index)}[app]()
+
+
+def b85_call(b, app, param, index):
+    if app == "mnemonic":
+        return b.bip39_mnemonic(word_count=param, index=index)
+    if app == "hex":
+        return b.hex(num_bytes=param, index=index)
+    if app == "pwd":
+        return b.pwd(pwd_len=param, index=index)
+    return getattr(b, app)(index=index)
+
+
+def check_bip85_path(case, ctx, sig="C18/bip85-path"):
+    """The BIP32 derivation INSIDE a BIP85 request meets an invalid child at a generated level of the application's
+    path (the PRF substitute is a function of its arguments: only the CKD message of that level is answered with the
+    chosen output).  The request must fail; the neighbouring index must still be served correctly afterwards."""
+    Prv, _, B85 = _impl()
+    app = case["app"]
+    param = B85_PARAMS[app][case["p"] % len(B85_PARAMS[app])]
+    index = case["index"]
+    case = dict(case, c=S.case_salt(case))
+    rm = R.Node.from_priv(case["k"], case["c"])
+    path = b85_path(app, param, index)
+    at = case["at"] % len(path)
+    try:
+        par = R.derive(rm, path[:at])
+    except R.Invalid:
+        return
+    il = il_for(case["kind"], par.k, case["u"])
+    out = il.to_bytes(32, "big") + b"\x22" * 32
+    trigger = (par.c, b"\x00" + par.k.to_bytes(32, "big") + path[at].to_bytes(4, "big"))
+    hits = []
+
+    def stub(key, msg):
+        if (bytes(key), bytes(msg)) == trigger:
+            hits.append(1)
+            return out
+        return patch.real_prf(key, msg)
+    invalid = il >= N or (il + par.k) % N == 0
+    b = B85(master_node=Prv(key=case["k"].to_bytes(32, "big"), chain_code=case["c"]))
+    with patch.prf(stub):
+        st_, val = call(b85_call, b, app, param, index)
+        st2, val2 = call(b85_call, b, app, param, index) if (invalid and st_ == "exc") else ("exc", None)
+    what = "bip85 %s(param=%r, index=%d): the child at level %d of %s is %s (IL=%#x)" % (
+        app, param, index, at + 1, R.fmt_path(path), "invalid" if invalid else "valid", il)
+    if not hits:
+        ctx.count("prf-substitution-not-effective: not judged")
+        ctx.nontrivial = False
+        return
+    if invalid:
+        ctx.count("invalid-level-%d" % (at + 1))
+        if st_ == "ok":
+            raise Violation(sig + "/value-returned-despite-invalid-child[%s]" % ("IL>=n" if il >= N else "zero-key"),
+                            "%s, yet the request returned %r" % (what, val))
+        if st2 == "ok":
+            raise Violation(sig + "/value-returned-on-retry", "%s; refused once, then returned %r" % (what, val2))
+        # the object is still usable for a neighbouring index and serves it correctly
+        if index + 1 < H:
+            try:
+                want = {"mnemonic": lambda: R85.mnemonic(rm, param, index + 1), "wif": lambda: R85.wif(rm, index + 1),
+                        "xprv": lambda: R85.xprv(rm, index + 1), "hex": lambda: R85.hex_(rm, param, index + 1),
+                        "pwd": lambda: R85.pwd(rm, param, index + 1)}[app]()
+            except R.Invalid:
+                return
+            st3, v3 = call(b85_call, b, app, param, index + 1)
+            if st3 == "exc" or v3 != want:
+                raise Violation(sig + "/neighbour-after-refusal", "%s; afterwards index %d gives %r, expected %r" % (what, index + 1, v3, want))
+        return
+    ctx.count("valid-control")
+    if st_ == "exc":
+        raise Violation(sig + "/valid-child-refused", "%s, yet the request raised %r" % (what, val))
+
+
+# ----------------------------------------------------------------------------------- bulk children
+def gen_bulk(tier):
+    return st.fixed_dictionaries({
+        "parent": parents(), "side": st.sampled_from(["prv", "pub", "pub"]),
+        "start": st.one_of(st.sampled_from([0, 1, H - 6, H, 2 ** 32 - 6]), S.indexes()),
+        "len": st.integers(2, 6), "bad": st.integers(0, 5),
+        "kind": st.sampled_from(["n", "n+1", "max", "ge-n-uniform", "n-k", "uniform"]), "u": st.integers(0, BIG - 1),
+    })
+
+
+def check_bulk(case, ctx):
+    """generate_children over an interval of 2..6 indexes one of which has an invalid PRF output (substitute keyed on
+    that child's CKD message): no node for that index may come back or be recorded."""
+    Prv, Pub, _ = _impl()
+    p = dict(case["parent"], c=S.case_salt(case))
+    side = case["side"]
+    start, ln = case["start"], case["len"]
+    if side == "pub":
+        start %= H
+        start = min(start, H - ln)
+    start = min(start, 2 ** 32 - ln)
+    if side == "prv" and start < H < start + ln:
+        start = H - ln if case["bad"] % 2 else H          # keep one parent-key encoding per request
+    bad = start + case["bad"] % ln
+    rp = ref_parent(p)
+    il = il_for(case["kind"], p["k"], case["u"])
+    out = il.to_bytes(32, "big") + b"\x33" * 32
+    ser_par = (b"\x00" + p["k"].to_bytes(32, "big")) if (side == "prv" and bad >= H) else rp.sec()
+    trigger = (p["c"], ser_par + bad.to_bytes(4, "big"))
+    hits = []
+
+    def stub(key, msg):
+        if (bytes(key), bytes(msg)) == trigger:
+            hits.append(1)
+            return out
+        return patch.real_prf(key, msg)
+    invalid = il >= N or (il + p["k"]) % N == 0
+    kw = dict(chain_code=p["c"], index=p["index"], depth=p["depth"], testnet=p["testnet"], parent_fingerprint=p["pfp"])
+    node = Prv(key=p["k"].to_bytes(32, "big"), **kw) if side == "prv" else Pub(key=rp.sec(), **kw)
+    with patch.prf(stub):
+        st_, kids = call(node.generate_children, (start, start + ln))
+    what = "%s generate_children((%d, %d)), parent k=%#x: child %d has PRF output IL=%#x (%s)" % (
+        side, start, start + ln, p["k"], bad, il, case["kind"])
+    if not hits:
+        ctx.count("prf-substitution-not-effective: not judged")
+        ctx.nontrivial = False
+        return
+    if not invalid:
+        ctx.count("valid-control")
+        if side == "pub" and il == 0:
+            return
+        if st_ == "exc":
+            raise Violation("C18/bulk/valid-child-refused", "%s, yet the request raised %r" % (what, kids))
+        return
+    ctx.count("invalid-in-interval")
+    returned = [n_ for n_ in (kids if st_ == "ok" and isinstance(kids, (list, tuple)) else []) if getattr(n_, "index", None) == bad]
+    recorded = [n_ for n_ in getattr(node, "children", []) if getattr(n_, "index", None) == bad]
+    if returned or recorded:
+        raise Violation("C18/bulk/invalid-child-%s[%s]" % ("returned" if returned else "recorded", "IL>=n" if il >= N else "zero-or-infinity"),
+                        "%s, yet a node for that index (key %s) was %s" % (
+                            what, bytes(getattr((returned or recorded)[0], "key", b"")).hex(),
+                            "returned" if returned else "left in the parent's children"))
+
+
 # ----------------------------------------------------------------------------------- sequences
 def gen_seq(tier):
     return st.fixed_dictionaries({
@@ -296,6 +449,20 @@ def clauses():
                "reference); the non-secret half is arbitrary, including 0xff..ff",
                gen=gen_bip85, classes=lambda c: [c["app"] + ":" + c["kind"]],
                n={"quick": 1000, "thorough": 40000}, shards={"quick": 16, "thorough": 16}),
+        Clause("bip85-path", check_bip85_path,
+               "a BIP85 request (all five applications) whose inner BIP32 derivation meets IL >= n or a zero child key at a "
+               "generated level 1..5 of the application path (PRF substitute keyed on that level's CKD message, real "
+               "HMAC elsewhere): the request must raise, also when repeated, and index+1 must still be served "
+               "correctly; valid outputs as controls",
+               gen=gen_bip85_path, classes=lambda c: ["%s:%s" % (c["app"], c["kind"])],
+               n={"quick": 600, "thorough": 30000}, shards={"quick": 16, "thorough": 16}),
+        Clause("bulk", check_bulk,
+               "generate_children over 2..6 consecutive indexes (private and public parents, starts at the interval "
+               "edges) where exactly one child's PRF output is invalid (IL >= n, zero key / infinity; substitute keyed on "
+               "that child's CKD message): no node for that index may be returned or recorded in the parent; valid "
+               "outputs as controls",
+               gen=gen_bulk, classes=lambda c: ["%s:%s" % (c["side"], c["kind"])],
+               n={"quick": 800, "thorough": 30000}, shards={"quick": 16, "thorough": 16}),
         Clause("sequence", check_seq,
                "multi-level derive_path (1..5 levels, private and public) where the scripted PRF returns an invalid "
                "output at a generated level and the real HMAC elsewhere: the whole call must raise and stop there",
